@@ -60,6 +60,10 @@ Theorem C19_validate_plane_only_wellformed : forall j : json R, plane_validate j
     (forall k v, In (k, v) kv -> k = "referencePoint" \/ k = "unitNormal").
 Proof. exact plane_validate_wellformed. Qed.
 
+
+(* ---- definitional: pins the shape of the model; the content is carried by the traced ties / correspondence ----
+   true of any model that starts with the validate test (the source has that shape: `cls.validate(data)` first); the
+   evidence for the clause is the correspondence on the corrupted documents (deserialize's outcome on each) *)
 (* deserialize never builds an object from data that validate refuses *)
 Theorem C19_deserialize_guarded_by_validate : forall (j : json R),
   (forall p, pl_deserialize j = Ok p -> pl_validate j = true) /\
@@ -70,6 +74,14 @@ Proof. exact deserialize_guarded. Qed.
 Example C19_empty_polyline_roundtrips :
   pl_deserialize (pl_serialize ROps 3 (MkPolyline (F:=R) [] true)) = Ok (MkPolyline [] true).
 Proof. exact (roundtrip_polyline 3 (MkPolyline [] true)). Qed.
+
+(* non-vacuity of the three plane theorems: a non-axis exactly unit normal (the historical defect input), e.g. with
+   direction_decimals = 2 it rounds to (0.29, 0.43, 0.86), which the constructor accepts at 2 decimals *)
+Example C19_unit_normal_inhabited : vnorm2 ROps (pnormal (MkPlane (V3 1 2 3) (V3 (2 / 7) (3 / 7) (6 / 7)))) = 1.
+Proof. unfold vnorm2, vdot; cbn. field. Qed.
+Example C19_plane_rounded_coarse_succeeds : exists r,
+  plane_rounded ROps 6 2 (MkPlane (V3 1 2 3) (V3 (2 / 7) (3 / 7) (6 / 7))) = Ok r.
+Proof. eexists. exact (C19_plane_rounded_succeeds 6 2 _ C19_unit_normal_inhabited). Qed.
 
 Definition C19_all := (C19_round_error_half_ulp, C19_serialize_validates, C19_roundtrip_polyline, C19_roundtrip_plane,
   C19_plane_rounded_succeeds, C19_plane_serialize_succeeds, C19_roundtrip_plane_default, C19_validate_polyline_only_wellformed,
